@@ -73,7 +73,7 @@ impl FromStr for UserBounds {
                 bail!("Field value 0 is not allowed (fields are 1-indexed)");
             }
             (Side::Some(left), Side::Some(right))
-                if right < left && (right * left).is_positive() =>
+                if right < left && right.is_positive() == left.is_positive() =>
             {
                 bail!("Field left value cannot be greater than right value");
             }
@@ -164,14 +164,18 @@ impl UserBoundsTrait<i32> for UserBounds {
     #[inline(always)]
     fn matches(&self, idx: i32) -> Result<bool> {
         match (self.l, self.r) {
-            (Side::Some(left), _) if (left * idx).is_negative() => {
+            (Side::Some(left), _)
+                if left != 0 && idx != 0 && left.is_positive() != idx.is_positive() =>
+            {
                 bail!(
                     "sign mismatch. Can't verify if index {} is between bounds {}",
                     idx,
                     self
                 )
             }
-            (_, Side::Some(right)) if (right * idx).is_negative() => {
+            (_, Side::Some(right))
+                if right != 0 && idx != 0 && right.is_positive() != idx.is_positive() =>
+            {
                 bail!(
                     "sign mismatch. Can't verify if index {} is between bounds {}",
                     idx,
